@@ -20,6 +20,13 @@ or that are NAMED like a built-in (`org.verif.Id.Ping`, `.Introspect`, `.GetMana
       (compared order-insensitively, without error texts and exception types);
   S4  the oracle `judge_*` below, written from the property statement on paths as element lists
       (split on '/'), using only the harness's own bookkeeping of what was exported.
+
+State that outlives one call / handler / class (notes/STATE_AUDIT.md, G6): stream `history-handlers` keeps SEVERAL
+handlers alive in one scenario (own connection each, some of them real client connections), interleaves the calls,
+exports the same instances on several handlers, unexports and re-exports them, lets exports fail half-way (a raising
+getAllProperties, an invalid path) before good ones, and judges every handler against the calls made on IT after every
+call.  Classes: a process-wide family used case after case AND new families per case (a base/derived pair first used
+in either order).  `stabilise` re-runs every finding on a freshly imported txdbus and stores the earlier cases it needs.
 """
 import xml.etree.ElementTree as ET
 
@@ -52,11 +59,16 @@ ASSUMPTIONS = [
     'without effect or (if the value still marshals) succeed; GetManagedObjects above such an object answers an error '
     '(any error name) - the oracle judges content only where every readable value beneath fits its type (D3, D4); '
     'bool properties are always given bools',
-    'one handler, calls arrive one at a time (no re-entrancy from inside exported methods)',
+    'calls arrive one at a time (no re-entrancy from inside exported methods); several handlers may be alive, each is '
+    'judged against the calls made on it (the statement read per connection); an object misbehaves (raising '
+    'getAllProperties, invalid path) only DURING an export call that therefore has to fail',
+    'where the signals an exported OBJECT emits go (PropertiesChanged, emitSignal after a second export / an unexport) is '
+    'not judged here: the statement speaks of the signals of export and unexport (C17 owns PropertiesChanged)',
 ]
 RULE = ('a case is one history (universe of paths, list of export/unexport calls with the exported class and '
-        'property values) together with all queries made after each step; distinct = distinct canonical JSON '
-        'of (universe, ops); non-trivial = at least one export and one query answered from a non-empty table')
+        'property values; in history-handlers also the handlers alive, the handler of each call, the class family and '
+        'its first-use order) together with all queries made after each step on every handler; distinct = distinct '
+        'canonical JSON of that; non-trivial = at least one export and one query answered from a non-empty table')
 
 ID_IFACE = 'org.verif.Id'
 BUILTIN = ['org.freedesktop.DBus.Introspectable', 'org.freedesktop.DBus.Peer',
@@ -179,15 +191,14 @@ def build_classes(variant=0):
             return False
 
     class KRaise(KA):
-        # an object that cannot tell its properties for a while: `_boom` = how many getAllProperties calls still
-        # succeed before one raises (None: all succeed).  Only set by the harness DURING an exportObject call.
+        # an object that cannot tell the properties of ONE of its interfaces for a while: `_boom` = that interface's
+        # name (None: all can be read).  Only set by the harness DURING an exportObject call.  (By name, not by call
+        # count: in which order and how often the handler asks is its own business.)
         _boom = None
 
         def getAllProperties(self, interfaceName):
-            if self._boom is not None:
-                if self._boom <= 0:
-                    raise RuntimeError('the properties cannot be read now')
-                self._boom -= 1
+            if self._boom is not None and (not interfaceName or interfaceName == self._boom):
+                raise RuntimeError('the properties of %s cannot be read now' % self._boom)
             return KA.getAllProperties(self, interfaceName)
 
     class KPath(KA):
@@ -446,11 +457,11 @@ class World:
     # -- API calls
     def export_ident(self, ident, fail=None):
         """exportObject(instance `ident`).  `fail`: the object misbehaves DURING this call - ('raise', n): its
-        getAllProperties raises after n good answers; ('path', text): it reports the (invalid) path `text`."""
+        getAllProperties raises for the interface RAISE_AT[n]; ('path', text): it reports the (invalid) path `text`."""
         obj = self.objs[ident]
         path = self.registry[ident][1]
         if fail is not None and fail[0] == 'raise':
-            obj._boom = fail[1]
+            obj._boom = RAISE_AT[fail[1] % len(RAISE_AT)]
         if fail is not None and fail[0] == 'path':
             obj._report = fail[1]
         self.take()
@@ -1105,10 +1116,11 @@ def run_batch(ctx, stream, hists, judge=True, client=False):
 #      ['unexport', k, path]
 #      ['again', k, ident]               the existing instance `ident` exported on handler k (whatever it is now: exported
 #                                        there, exported on another handler, unexported, never successfully exported)
-#      ['export-raising', k, path, vals, n]   a new instance whose getAllProperties raises after n good answers
+#      ['export-raising', k, path, vals, n]   a new instance whose getAllProperties raises for its interface RAISE_AT[n]
 #      ['export-badpath', k, path, bad, vals] a new instance that reports the invalid path `bad` during the call
 # instances are numbered 1, 2, ... in the order of the ops that create them (export, export-raising, export-badpath).
 BAD_SUFFIX = ['/', '//x', '/x-y', '/x y', '/é']
+RAISE_AT = ['org.verif.A', ID_IFACE, 'org.freedesktop.DBus.Properties']   # first, middle, last interface of KRaise
 
 
 def gen_handlers_history(rng, universe, length, nh):
@@ -1998,14 +2010,20 @@ VALUES_UNIVERSE = ['/', '/a', '/a/b', '/a/bc', '/a/b/c', '/b']
 def run(ctx):
     classes()
     # ---- corpus first (past failures): each file has 'input': {'universe', 'ops'}
-    corpus_h = []
+    corpus_h, corpus_hh = [], []
     for name, case in ctx.corpus():
         if case.get('stream') == 'managed-values':
             continue
         inp = case.get('input', case)
+        if case.get('stream') == 'history-handlers':
+            corpus_hh.append(handlers_hist(inp['universe'], inp['ops'], inp['handlers'], fresh=inp.get('fresh', False),
+                                           variant=inp.get('variant', 0), first=inp.get('first')))
+            continue
         corpus_h.append(make_hist(inp['universe'], inp['ops']))
     if corpus_h:
         run_batch(ctx, 'history-fixed-universe', corpus_h)
+    if corpus_hh:
+        run_handlers(ctx, 'history-handlers', corpus_hh)
 
     rng = ctx.rng
     # ---- the fixed universes: parents, children, grandchildren, prefix-sharing siblings, the root,
@@ -2072,7 +2090,7 @@ def run(ctx):
     hs = []
     for name, case in ctx.corpus():
         if case.get('stream') == 'managed-values':
-            hs.append(case['input'])
+            hs.append(dict(case['input']))
     for i in range(n):
         uni = sorted(rng.sample(VALUES_UNIVERSE, rng.randrange(3, 7)))
         if i % 3 == 0:
